@@ -83,8 +83,19 @@ def main(path):
         if r1 != r2:
             out["run2"] = r2
         out["perms"] = []
-        if ms is not None and len(ms) <= 4 and all(m.is_trained for m in ms):
-            for perm in itertools.permutations(range(len(ms))):
+        if ms is not None and all(m.is_trained for m in ms):
+            k = len(ms)
+            if k <= 4:
+                perms = list(itertools.permutations(range(k)))
+            else:
+                import random
+                r = random.Random(case["seed"])
+                perms = [tuple(reversed(range(k))), tuple(list(range(1, k)) + [0])]
+                for _ in range(2):
+                    p_ = list(range(k))
+                    r.shuffle(p_)
+                    perms.append(tuple(p_))
+            for perm in perms:
                 rp, _ = analysis("perm", models=[ms[i] for i in perm])
                 out["perms"].append({"perm": list(perm), "scores_equal": rp.get("scores") == r1.get("scores"),
                                      "error": rp.get("error")})
